@@ -55,13 +55,15 @@ def units(tier, seed):
             us.append({'name': f'per table {n}x{m} label menu {menu}', 'fn': 'unit_pertable',
                        'args': {'n': n, 'm': m, 'menu': menu}, 'split': 4 if n * m >= 8 else 0})
     us.sort(key=lambda u: -(u['args']['n'] * u['args']['m']))
-    us.insert(0, {'name': 'self-test of the string model', 'fn': 'unit_selftest', 'args': {'n': 0, 'm': 0}})
+    for part in range(6):
+        us.insert(0, {'name': f'self-test of the string model {part + 1}/6', 'fn': 'unit_selftest',
+                      'args': {'n': 0, 'm': 0, 'part': part, 'parts': 6}})
     return us
 
 
 def unit_selftest(args, prefix=(), max_depth=None):
     from . import selftest_str
-    mm, n1, n2 = selftest_str.run()
+    mm, n1, n2 = selftest_str.run(args.get('part', 0), args.get('parts', 1))
     return {'paths': n1 + n2, 'cex': [], 'queries': 0, 'cuts': [], 'samples': [], 'witnesses': [],
             'inconclusive': [f'string model self-test failed: {m}' for m in mm[:5]],
             'bounds': f'{n1} strings x {len(selftest_str.ops("", ""))} str operations and {n2} StringIO scenarios, '
